@@ -26,6 +26,8 @@ COLS = [
     ("(j.q() + j.pt())", {"double"}), ("j.tags().Count()", {"int"}), ("j.tags().Sum()", {"float", "double"}), ("abs(j.pt())", {"double"}),
     ("(j.pt() ** 2)", {"double"}), ("(-j.nTrk())", {"int"}), ("j.eta()", {"double"}),
     # a float literal stays floating whatever its value: alone and next to integer operands
+    # a conditional is floating whatever its test is - also a literal True / False (what a captured python flag becomes)
+    ("(j.nTrk() if True else 2)", {"double", "float"}), ("(1 if False else j.nTrk())", {"double", "float"}), ("(j.nTrk() if vm_const(True) else 2.5)", {"double", "float"}),
     ("2.0", {"double"}), ("1e10", {"double"}), ("(j.nTrk() * 2.0)", {"double"}), ("(j.nTrk() + 1.0)", {"double"}), ("(3 - 1.0)", {"double"}), ("(j.nTrk() * 2.5)", {"double"}),
 ]
 NAMES = ["a", "b", "col1", "x_1", "pt2"]
@@ -88,6 +90,8 @@ def build(backend):
     for e, t in COLS:
         vt = {f"std::vector<{x}>" for x in t}
         add("ev-1d", f"ds.Select(lambda e: {coll}.Select(lambda j: {e}))", None, [vt])
+    add("ev-1d-literal-test", f"ds.Select(lambda e: {coll}.Select(lambda j: (j.nTrk() if True else 2)))", None, [{"std::vector<double>", "std::vector<float>"}])
+    add("ev-scalar-literal-test", f"ds.Select(lambda e: ({coll}.Count() if False else {coll}.Count() + 1))", None, [{"double", "float"}])
     add("ev-2d", f"ds.Select(lambda e: {coll}.Select(lambda j: j.tags().Select(lambda t: t * 2)))", None, [{"std::vector<std::vector<float>>", "std::vector<std::vector<double>>"}])
     add("ev-2d-int", f"ds.Select(lambda e: {coll}.Select(lambda j: j.parts().Select(lambda p: p.nTrk())))", None, [{"std::vector<std::vector<int>>"}])
     add("ev-mixed-tuple", f"ds.Select(lambda e: ({coll}.Count(), {coll}.Select(lambda j: j.q()), {coll}.Select(lambda j: j.isGood())))", None,
